@@ -500,6 +500,9 @@ def build(p):
   from . import C10
   C10.v_frames(p, files=[f'fedjax/algorithms/{a}.py' for a in ('fed_prox', 'mime', 'mime_lite', 'hyp_cluster', 'apfl')],
                min_sites=5)
+  # "with the same ... batching": every algorithm batches its clients with the hyper-parameter object it was built with,
+  # unchanged (a builder that rewrites num_epochs / num_steps / seed trains on another stream than FedAvg)
+  C10.v_hparams_passthrough(p)
   v_fedprox(p)
   v_mimelite(p)
   v_mime_onestep(p)
